@@ -87,3 +87,16 @@ Section Step.
 End Step.
 
 Definition empty_world : world := mkWorld 0 [].
+
+(* ---- a compact fingerprint of a world, used to compare the extracted (OCaml) evaluation of
+        [World.run] with its evaluation by the kernel's vm_compute on the same operations ---- *)
+Definition kv_sum (c : copy) : N :=
+  fold_right (fun e acc => v_ver (snd e) + len (v_val (snd e)) + len (fst e)
+                           + match v_st (snd e) with SSet => 0 | SDel _ => 1 | STtl _ => 2 end + acc) 0 (c_kvs c).
+Definition world_digest (w : world) : list N :=
+  flat_map (fun n => N.of_nat (length (cs_nodes (nd_cs n)))
+                     :: flat_map (fun e => let c := snd e in
+                                           [c_hb c; c_gc c; c_max c; N.of_nat (length (c_kvs c)); kv_sum c])
+                                 (cs_nodes (nd_cs n))
+                     ++ [nd_sends n; nd_cb n; N.of_nat (length (nd_watch n))])
+           (w_nodes w).
